@@ -75,6 +75,7 @@ main(int argc, char** argv)
   char* tok[V_MAX_TOK];
   int   n = 0;
   v_setup_io();
+  v_watchdog(90);   // a lock call that never returns (a BLOCK request nobody will satisfy) is reported, not waited for
   while ((n = v_next(in, tok)) >= 0) {
     if (v_marker(n, tok)) continue;
     if (!strcmp(tok[0], "flags") && (n == 4 || n == 5)) {
